@@ -41,6 +41,7 @@ CFG = {
     "targets": _T,
     "gaps": [
         "no proof gap: all 4 operators x 6 forms are proved exact unconditionally (C02_all_forms), each through its own code path; the lemma library's bitset-kernel record BKernel (Lemmas/StoreOps.lean) is inhabited by bKernel from the core library (Lemmas/BStoreBasic.lean, BStoreRange.lean); C02_forms_agree: all forms of one operator return structurally equal values (Bitmap.canonical)",
+        "fidelity audit of the store kernels and 32-bit iterators (notes/fidelity-stores-iter32.md): the array-array kernels are now also stated as the ONE generic merge per operator of scalar.rs, parameterised by the BinaryOperationVisitor (Arr.scalarOr/And/Sub/Xor, visitors Arr.vecWriter / Arr.cardCounter; C02_scalar_vecWriter, unconditional), closed by from_vec_unchecked whose debug validation is proved never to fire on strictly ascending operands (Arr.orOp/andOp/subOp/xorOp, C02_array_ops_exact); op_bitmaps is mirrored as the single loop with the running len (BStore.opBitmapsMirror, C02_opBitmaps_mirror, unconditional); to_array_store / to_bitmap_store with the validation of the *_unchecked constructor they end in (C02_conversions_validated); the compiled driver executes the mirrored kernels (@[csimp], C02_driver_runs_mirrors). The |=, -=, ^= of a bitset with an array (per-element counter updates, the i64 trick), the in-place &= / -= retain forms with the galloping index and all bitset word loops were found mirrored",
         "'borrowed operands are left unchanged' is not a theorem of a functional model; it is checked by the harness (operand hashes after every borrowed form) on the sampled pairs only",
     ],
     "level_text": "Theorems (Lean 4, kernel-checked) that the model of |, &, -, ^ in each operand/assign form computes exactly the set union / intersection / difference / symmetric difference of the operands' element lists; the model (ops.rs Pairs loops, operand swaps, per-kind store dispatch, ensure_correct_store) is tied to the Rust source by running both on the same generated operand pairs in two build profiles, all 4 operators x 6 forms per pair, with the borrowed operands re-hashed after every borrowed form. Unbounded quantifier = theorem; tie = sampled.",
